@@ -1,4 +1,5 @@
 import RV.C18.Lemmas
+import RV.C18.TwoWrappers
 /-
   C18 — property theorems (statements first, as `def … : Prop`, then the proofs).
 
@@ -124,6 +125,43 @@ theorem sim_run (cs : List Cmd) : ∀ (s : W) (sp : Spec), Sim s sp → Sim (s.r
 theorem history_refines_spec : Statement_history_refines_spec := by
   intro init cs hnd
   exact (sim_run cs ⟨init, []⟩ ⟨init, init⟩ ⟨SetEq.refl _, inv_begin init, hnd⟩).cur
+
+/-! ### Two wrappers over one store, touching disjoint quads -/
+
+/-- Two wrappers share one store.  Every operation of wrapper `i` touches only quads inside a
+    territory `T`, every operation of the other wrapper only quads outside it (an `add q`
+    touches `q`; a `remove pat` touches every quad `pat` can match — the static, pattern-level
+    reading of "transactions touch disjoint triples").  Then, for EVERY interleaving `ops`,
+    rolling back wrapper `i` leaves exactly what the other wrapper's operations alone
+    produce from the initial content: the other's changes are intact, `i`'s are undone. -/
+def Statement_two_wrappers_disjoint : Prop :=
+  ∀ (init : List Quad) (i : Bool) (T : Quad → Bool) (ops : List (Bool × Op)), init.Nodup →
+    (∀ jo ∈ ops, ∀ q, jo.2.touches q = true → (T q = true ↔ jo.1 = i)) →
+    SetEq (((St2.run ⟨init, [], []⟩ ops).rollback i).cur)
+          ((W.run ⟨init, []⟩ ((ops.filter (fun jo => jo.1 != i)).map (·.2))).cur)
+
+theorem two_wrappers_disjoint : Statement_two_wrappers_disjoint := by
+  intro init i T ops hnd hd
+  have h0 : J T i ⟨init, [], []⟩ init :=
+    ⟨by cases i <;> exact inv_begin init, by cases i <;> simp [St2.w], hnd⟩
+  have h := J_run ops _ _ h0 hd
+  rw [run_cur, ← othersImage_eq]
+  simp only [St2.rollback, put_cur, W.rollback]
+  rw [w_cur]
+  exact replay_restores h.inv
+
+/-- non-vacuity: wrapper 0 works on subject 1, wrapper 1 on subject 2, interleaved -/
+example :
+    let ops : List (Bool × Op) :=
+      [(false, .remove (some 1, none, none, none)), (true, .add (2, 5, 5, 9)),
+       (false, .add (1, 6, 6, 9)), (true, .remove (some 2, some 2, none, none))]
+    (((St2.run ⟨[(1, 2, 3, 9), (2, 2, 3, 9)], [], []⟩ ops).rollback false).cur = [(2, 5, 5, 9), (1, 2, 3, 9)])
+    ∧ (∀ jo ∈ ops, ∀ q, jo.2.touches q = true → ((q.1 == 1) = true ↔ jo.1 = false)) := by
+  refine ⟨by decide, ?_⟩
+  intro jo hjo q hq
+  simp only [List.mem_cons, List.not_mem_nil, or_false] at hjo
+  rcases hjo with rfl | rfl | rfl | rfl <;>
+    simp_all [Op.touches, Pat.matches, matchPos]
 
 /-! ### Non-vacuity: a concrete history that exercises cancel and append paths -/
 
